@@ -4,9 +4,10 @@
   the check functions with the exception classes their `try` blocks catch, and the coverage table of `AASDataChecker`.
 -/
 import Basyx.Lemmas.Compliance
+import Basyx.Lemmas.Keyed
 import Basyx.Gen.Compliance
 namespace Basyx.C20
-open Basyx.Compliance Basyx.Codec
+open Basyx.Compliance Basyx.Codec Basyx.Keyed
 
 /-- **Overall status = worst step status** (order of the `Status` IntEnum), for every list of steps: no step is
     worse than the overall status, and the overall status is the status of some step (or SUCCESS for no steps). -/
@@ -63,9 +64,49 @@ theorem c20_verdict_iff (v w : Val) (h : shaped Gen.Compliance.cover v = true) :
     checkEq Gen.Compliance.cover v w = true ↔ v = w :=
   ⟨c20_detects v w, fun e => e ▸ c20_identical_pass v h⟩
 
+/-! ### collections without order: members matched by their key (`Basyx/Model/Keyed.lean`)
+
+Qualifiers (by `type`), extensions (by `name`), the members of submodels, collections, entities and annotated
+relationships (by `id_short`) and the identifiables of the two files (by `id`) are matched by key, not by position.  That
+keys are unique inside one collection is property C01's invariant (namespace sets) resp. C13's (object stores). -/
+
+/-- **In whatever element order**: rearranging the members of either collection — in either file — never changes the
+    verdict, whatever the member comparison is and whatever the two collections hold. -/
+theorem c20_element_order_irrelevant {κ α : Type} [DecidableEq κ] (lenCheck : Bool) (cmp : α → α → Bool)
+    {act act' exp exp' : List (κ × α)} (ha : act.Perm act') (he : exp.Perm exp') (hn : (keys act).Nodup) :
+    checkKeyed lenCheck cmp act exp = checkKeyed lenCheck cmp act' exp' :=
+  checkKeyed_perm lenCheck cmp ha he hn
+
+/-- what a passing keyed comparison establishes: every expected member is present under its key and compares equal,
+    and the checked collection has no member under a key the expected one lacks -/
+theorem c20_keyed_pass_means {κ α : Type} [DecidableEq κ] (lenCheck : Bool) (cmp : α → α → Bool) (act exp : List (κ × α))
+    (hn : (keys act).Nodup) :
+    checkKeyed lenCheck cmp act exp = true ↔
+      (lenCheck = true → act.length = exp.length) ∧
+      (∀ e ∈ exp, ∃ a, (e.1, a) ∈ act ∧ cmp a e.2 = true) ∧
+      (∀ a ∈ act, a.1 ∈ keys exp) :=
+  checkKeyed_iff lenCheck cmp act exp hn
+
+/-- **Same data in any order passes, anything else fails**: with the member comparison of the coverage model, two keyed
+    collections of any size compare equal iff one is a rearrangement of the other — a missing member, an extra member,
+    a member filed under another key or a member that differs in any attribute at any depth fails the comparison. -/
+theorem c20_unordered_verdict (lenCheck : Bool) (act exp : List (String × Val))
+    (hna : (keys act).Nodup) (hne : (keys exp).Nodup) (hsh : ∀ e ∈ exp, shaped Gen.Compliance.cover e.2 = true) :
+    checkKeyed lenCheck (checkEq Gen.Compliance.cover) act exp = true ↔ act.Perm exp :=
+  checkKeyed_true_iff_perm lenCheck _ act exp hna hne (c20_detects) (fun e he => c20_identical_pass e.2 (hsh e he))
+
+/-- the hypothesis "keys unique in the checked collection" is needed: with two members under one key the first one
+    shadows the second, and the verdict depends on the order (kernel-checked witness; real namespace sets and stores
+    cannot hold such a collection — C01, C13) -/
+theorem c20_duplicate_keys_order_matters :
+    checkKeyed false (fun (a b : Nat) => a == b) [("k", 1), ("k", 2)] [("k", 1)] = true ∧
+    checkKeyed false (fun (a b : Nat) => a == b) [("k", 2), ("k", 1)] [("k", 1)] = false := by decide
+
 /-! non-vacuity -/
 example : shaped Gen.Compliance.cover (.node "Resource" [.tok "p" false, .tok "image/png" false]) = true := by decide
 example : overall [.success, .failed, .success] = .failed := by decide
+example : checkKeyed true (checkEq Gen.Compliance.cover) [("a", .tok "1" false), ("b", .tok "2" false)] [("b", .tok "2" false), ("a", .tok "1" false)] = true := by decide
+example : (keys [("a", Val.tok "1" false), ("b", .tok "2" false)]).Nodup := by decide
 example : runScript [⟨"open", "open", ["IOError"], ["IOError"], false⟩, ⟨"read", "json.load", ["JSONDecodeError"], ["JSONDecodeError"], false⟩]
     [.ok false, .raises "JSONDecodeError"] = .ok [("open", .success), ("read", .failed)] := by rfl
 
